@@ -43,4 +43,6 @@ def configs(tier):
 def run(tier, seed, only=None):
     cs = filt(configs(tier), only)
     META['bounds'] = {'limits': '{-1,0,1,2}^d, all vectors (solver-certified enumeration where coverage_complete)', 'dims': '2 (3 once)', 'calls': '<= 4 after make+load', 'termination bound': '30 s'}
-    return runner.run_property('C08', cs, tier, seed, META)
+    ks = [] if only else kconfigs_for(tier, (2, 4))
+    META.setdefault('functions_encoded', []).append('RuleLocal::{getParent, getStepParent, getKid, getLevel, getNode, getSupport, getNumPoints, evalRaw, evalSupport} via ir2c + CBMC: level of every kid and level/number-of-points consistency for all 1-D points (engine K, CBMC)')
+    return runner.run_property('C08', cs, tier, seed, META, ks)
